@@ -32,7 +32,7 @@ func (g *verifTermGen) term(depth int) string {
 	if depth == 0 {
 		return []string{"return a", `panic("x")`, "a++", "for {\n}", "select {}", "b = 1\nreturn b"}[g.pick(6)]
 	}
-	return g.termShape(g.pick(26), depth)
+	return g.termShape(g.pick(29), depth)
 }
 
 func (g *verifTermGen) termShape(shape, depth int) string {
@@ -98,6 +98,15 @@ func (g *verifTermGen) termShape(shape, depth int) string {
 		return "defer func() {\n_ = recover()\n}()\n" + T()
 	case 25:
 		return "switch {\ncase ok:\n" + T() + "\ncase a > 0:\npanic(\"p\")\ndefault:\ngo func() {\n}()\n" + T() + "\n}"
+	case 26: // a label inside a function literal, then the same label name in the enclosing function
+		fn, l := "g"+g.label(), g.label()
+		return fn + " := func() {\n" + l + ":\nfor {\nbreak " + l + "\n}\n}\n_ = " + fn + "\n" + l + ":\nfor {\nif ok {\nbreak " + l + "\n}\n}\n" + T()
+	case 27: // the other order
+		fn, l := "g"+g.label(), g.label()
+		return l + ":\nfor {\nif ok {\nbreak " + l + "\n}\n}\n" + fn + " := func() {\n" + l + ":\nfor {\nbreak " + l + "\n}\n}\n_ = " + fn + "\n" + T()
+	case 28: // an unused label inside a function literal, a used one of the same name outside
+		fn, l := "g"+g.label(), g.label()
+		return fn + " := func() {\n" + l + ":\na++\n}\n_ = " + fn + "\n" + l + ":\nfor {\nif ok {\nbreak " + l + "\n}\n}\n" + T()
 	}
 	return "return 0"
 }
@@ -128,7 +137,7 @@ func verifDiagClasses(src string) (classes map[string]bool, otherErr bool) {
 
 func VerifH_C10_bodies() {
 	g := &verifTermGen{}
-	tmpl := vp.Choose("shape", 26)
+	tmpl := vp.Choose("shape", 29)
 	g.focus = 1 + vp.Choose("focus", 8)
 	if vp.Thorough() {
 		g.focus2 = g.focus + vp.Choose("focus2", 4)
